@@ -23,7 +23,8 @@ type c13Content struct {
 
 var c13Contents = func() []c13Content {
 	facts := [][]refdl.Atom{{fOpRead}, {fOpWrite}, {fOpRead, fResF}, {fResG, fAdmin}}
-	extras := []refdl.Block{{}, {Rules: []refdl.Rule{rAllowed}}, {Checks: []refdl.Check{chk(q(fOpRead))}}}
+	// the last extra is a rule whose head variable is not bound by its body: evaluation fails
+	extras := []refdl.Block{{}, {Rules: []refdl.Rule{rAllowed}}, {Checks: []refdl.Check{chk(q(fOpRead))}}, {Rules: []refdl.Rule{rule(atom("allowed", vy), atom("operation", vx))}}}
 	pols := [][]refdl.Policy{{allow(qTrue)}, {deny(q(fOpWrite)), allow(q(fAllowedF)), deny(q(fAdmin))}}
 	var out []c13Content
 	for _, f := range facts {
@@ -59,6 +60,7 @@ const (
 	c13Authorize = iota
 	c13Query
 	c13QueryAuthorize
+	c13None // content added, nothing evaluated, then Reset
 	c13NActions
 )
 
@@ -96,7 +98,7 @@ func init() {
 		ID:        "C13",
 		Level:     "model_checking",
 		Technique: "explicit enumeration of all (add content, authorize/query, reset) histories up to depth 2/3 on the real authorizer, each final round compared with a fresh authorizer (differential oracle)",
-		Rule:      "all histories of 2 (quick) / 2 and 3 (thorough) rounds; a round = one of 24 contents (4 fact sets x {nothing, a rule, a check} x 2 ordered policy lists) x one of 3 actions (Authorize, Query panel, Query then Authorize) followed by Reset; 4 tokens (read-only check, rule-bearing, with a block, empty). Every earlier-round outcome occurs (ok, denied, no match, failed check). No merging of histories is assumed: the full product is enumerated. Non-trivial = the earlier rounds' content differs from the last round's; distinct by construction. states = histories, transitions = rounds executed on the reused authorizer.",
+		Rule:      "all histories of 2 (quick) / 2 and 3 (thorough) rounds; a round = one of 32 contents (4 fact sets x {nothing, a rule, a check, a rule whose evaluation fails} x 2 ordered policy lists) x one of 4 actions (Authorize, Query panel, Query then Authorize, nothing) followed by Reset; 4 tokens (read-only check, rule-bearing, with a block, empty). Every earlier-round outcome occurs (ok, denied, no match, failed check). No merging of histories is assumed: the full product is enumerated. Non-trivial = the earlier rounds' content differs from the last round's; distinct by construction. states = histories, transitions = rounds executed on the reused authorizer.",
 		Assume:    []string{"differential oracle: a fresh NewVerifier for the same token given only the last round's content"},
 		Spaces: func(c *sup.Ctx) []*sup.Space {
 			mk := func(name string, rounds int, contents []c13Content) *sup.Space {
@@ -128,7 +130,7 @@ func init() {
 						h := hist[r]
 						last = c13Round(a, c13Contents[h[0]], h[1])
 						a.Reset()
-						desc = append(desc, fmt.Sprintf("round(content=%s policies=%v action=%s)", c13Contents[h[0]].blk, c13Contents[h[0]].pol, []string{"Authorize", "Query", "Query;Authorize"}[h[1]]))
+						desc = append(desc, fmt.Sprintf("round(content=%s policies=%v action=%s)", c13Contents[h[0]].blk, c13Contents[h[0]].pol, []string{"Authorize", "Query", "Query;Authorize", "nothing"}[h[1]]))
 						w.Stats().Transitions++
 					}
 					w.Stats().States++
@@ -147,6 +149,8 @@ func init() {
 						cls = "query-only"
 					} else if hist[0][1] == c13QueryAuthorize {
 						cls = "query-then-authorize"
+					} else if hist[0][1] == c13None {
+						cls = "no-evaluation"
 					}
 					if strings.HasPrefix(cls, "other-failure") {
 						cls = "other-failure"
@@ -172,11 +176,11 @@ func init() {
 			} else {
 				var sub []c13Content
 				for i, x := range c13Contents {
-					if i%3 == 0 {
+					if i%4 == 0 || i%8 == 7 {
 						sub = append(sub, x)
 					}
 				}
-				sp = append(sp, mk("three-rounds-8-contents", 3, sub))
+				sp = append(sp, mk("three-rounds-12-contents", 3, sub))
 			}
 			// also: Reset twice, and Reset before any use
 			return sp
